@@ -81,7 +81,107 @@ pub fn main(args: &[String]) -> i32 {
 		let rc = rng.chance(1, 3);
 		let dir = scratch.join("db");
 		let _ = std::fs::remove_dir_all(&dir);
-		if i % 2 == 0 {
+		if i % 8 == 7 {
+			// ---- compressed column: values of every compressibility are read back bit-exact, and what is
+			// stored (the compressed bytes) sits in the tier its length calls for
+			let algo = if rng.chance(1, 2) { parity_db::CompressionType::Lz4 } else { parity_db::CompressionType::Snappy };
+			let threshold = *rng.pick(&[0u32, 64, 4096]);
+			let len = match rng.below(6) {
+				0 => boundary_lens(&sizes, &mut rng, rc),
+				1 => rng.range(32000, 34000) as usize,
+				2 => rng.range(34000, 220000) as usize,
+				3 => rng.range(1, 200) as usize,
+				_ => rng.range(200, 32000) as usize,
+			};
+			let vseed = rng.next();
+			let class = rng.below(5);
+			let val: Vec<u8> = match class {
+				0 => vec![rng.below(256) as u8; len],
+				1 => {
+					let period = rng.range(2, 64) as usize;
+					let pat = Rng::new(vseed).bytes(period);
+					(0..len).map(|j| pat[j % period]).collect()
+				},
+				2 => {
+					// random head, constant tail
+					let mut v = value(vseed, len);
+					let cut = if len == 0 { 0 } else { rng.below(len as u64) as usize };
+					for b in v[cut..].iter_mut() {
+						*b = 0x41;
+					}
+					v
+				},
+				3 => value(vseed, len).into_iter().map(|b| b & 0x0f).collect(),
+				_ => value(vseed, len),
+			};
+			let key = rng.bytes(32);
+			let mut o = options(&dir, rc);
+			o.columns[0].compression = algo;
+			o.compression_threshold.insert(0, threshold);
+			let mut verdict = Ok(());
+			{
+				let db = Db::open_or_create(&o).unwrap();
+				db.commit(vec![(0u8, key.clone(), Some(val.clone()))]).unwrap();
+				if db.get(0, &key).unwrap().as_ref() != Some(&val) {
+					verdict = Err(format!("value-not-exact compressed column, length {len} class {class}: wrong while queued"));
+				}
+				drain(&db);
+				let got = db.get(0, &key).unwrap();
+				if got.as_ref() != Some(&val) {
+					verdict = Err(format!("value-not-exact compressed column ({algo:?}, threshold {threshold}), length {len} class {class}: read back {:?} bytes after the drain", got.map(|v| v.len())));
+				}
+			}
+			let mut found: Option<(u64, Vec<u8>)> = None;
+			for e in std::fs::read_dir(&dir).unwrap().flatten() {
+				let n = e.file_name().to_string_lossy().to_string();
+				if let Some(t) = n.strip_prefix("table_00_") {
+					let bytes = std::fs::read(e.path()).unwrap();
+					if !bytes.is_empty() {
+						found = Some((u64::from_str_radix(t, 16).unwrap(), bytes));
+					}
+				}
+			}
+			let mut case = vec![6u64, 3, rc as u64];
+			let mut obs = Vec::new();
+			match found {
+				None => {
+					case.push(0);
+					obs.push(0xdead);
+					verdict = Err("no-table-file no value table file was written".to_string());
+				},
+				Some((tier, bytes)) => {
+					let es = if (tier as usize) < sizes.len() { sizes[tier as usize] as usize } else { 4096 };
+					let hd = [bytes[es], bytes[es + 1]];
+					let stored = if tier as usize >= sizes.len() && (hd == [0xfd, 0xff] || hd == [0xfd, 0x7f]) {
+						// a chain: longer than any single slot holds
+						1_000_000u64
+					} else {
+						let size = (u16::from_le_bytes(hd) & 0x7fff) as u64;
+						size.saturating_sub(26 + if rc { 4 } else { 0 })
+					};
+					case.push(stored);
+					obs.push(tier);
+					*dist.entry(format!("compressed-{}", if hd == [0xfd, 0x7f] || (hd != [0xfd, 0xff] && hd[1] & 0x80 != 0) { "stored-compressed" } else { "stored-plain" })).or_insert(0) += 1;
+				},
+			}
+			{
+				let db = Db::open(&o).unwrap();
+				let got = db.get(0, &key).unwrap();
+				if got.as_ref() != Some(&val) {
+					verdict = Err(format!("value-not-exact compressed column ({algo:?}, threshold {threshold}), length {len} class {class}: read back {:?} bytes after reopen", got.map(|v| v.len())));
+				}
+				if db.get_size(0, &key).unwrap() != Some(len as u32) {
+					verdict = Err(format!("size-wrong compressed column, length {len}"));
+				}
+			}
+			out.case(&case);
+			out.obs(&obs);
+			match verdict {
+				Ok(()) => oracle.push_str("ok\n"),
+				Err(e) => oracle.push_str(&format!("FAIL {e}\n")),
+			}
+			distinct.insert((3u8, rc, len as u64, class));
+		} else if i % 2 == 0 {
 			// ---- byte-exact single insert
 			let len = boundary_lens(&sizes, &mut rng, rc);
 			let key = rng.bytes(32);
